@@ -61,24 +61,69 @@ def broadcast(d1, d2, where):
     return tuple(out)
 
 
-VISITED = set()     # reduction call sites the translator went through (line, column)
+VISITED = set()     # call sites the translator went through (line, column)
 FIELD_DATA = {"fields", "dPhidz", "dfieldsdz", "vevLowT", "vevHighT", "wallParams", "widths",
-              "offsets", "wallWidths", "fieldsWithEndpoints"}
-ALL_RED = {"sum", "max", "amax", "min", "amin", "mean", "prod", "dot", "vdot", "inner",
-           "norm", "einsum", "tensordot", "trace", "cumsum", "average", "nansum"}
+              "offsets", "wallWidths", "fieldsWithEndpoints", "fieldProfiles",
+              "phaseLocation1", "phaseLocation2", "phaseLocation", "fieldsAtMinimum",
+              "initialGuess", "guesses", "fieldValueVariationScale", "wallArray"}
+# operations that single out entries / mix the entries of an array
+SITE_CALLS = {"sum", "max", "amax", "min", "amin", "mean", "prod", "dot", "vdot", "inner",
+              "norm", "einsum", "tensordot", "trace", "cumsum", "average", "nansum",
+              "where", "isclose", "allclose", "sign", "abs", "absolute", "fabs", "argmax",
+              "argmin", "argsort", "sort", "any", "all", "nonzero", "clip", "unique", "flip",
+              "roll", "maximum", "minimum", "fmax", "fmin", "select", "piecewise", "round",
+              "around", "rint", "floor", "ceil", "trunc", "nan_to_num", "take", "delete",
+              "insert", "swapaxes", "transpose", "fliplr", "flipud"}
+SCAN_FILES = ("equationOfMotion.py", "containers.py", "manager.py", "results.py",
+              "boltzmann.py", "freeEnergy.py", "effectivePotential.py", "thermodynamics.py")
+# Sites on field data that are NOT part of the generated model, each reviewed once; the text
+# must match exactly, so an edit of such a line (or any new site) breaks the tie.
+ALLOWED_SITES = {
+    # saturation test after the solve: elementwise over ALL fields, any-reduction
+    ("equationOfMotion.py", "solveWall"): {
+        "np.any(wallParams.widths == self.wallThicknessBounds[0] / self.thermo.Tnucl)",
+        "wallParams.widths == self.wallThicknessBounds[0] / self.thermo.Tnucl",
+        "np.any(wallParams.offsets == self.wallOffsetBounds[0])",
+        "wallParams.offsets == self.wallOffsetBounds[0]",
+        "np.any(wallParams.widths == self.wallThicknessBounds[1] / self.thermo.Tnucl)",
+        "wallParams.widths == self.wallThicknessBounds[1] / self.thermo.Tnucl",
+        "np.any(wallParams.offsets == self.wallOffsetBounds[1])",
+        "wallParams.offsets == self.wallOffsetBounds[1]"},
+    # counts, not field values
+    ("manager.py", "setupThermodynamicsHydrodynamics"): {
+        "phaseInfo.phaseLocation1.numFields() == self.model.fieldCount",
+        "phaseInfo.phaseLocation2.numFields() == self.model.fieldCount"},
+    ("effectivePotential.py", "configureDerivatives"): {
+        "self.derivativeSettings.fieldValueVariationScale.size == self.fieldCount"},
+    ("effectivePotential.py", "findLocalMinimum"): {
+        "max(T.shape[0], initialGuess.numPoints())"},
+    # symmetric in the fields (all components compared)
+    ("manager.py", "validatePhaseInput"): {
+        "np.allclose(phaseLocation1, phaseLocation2, rtol=1e-05, atol=1e-05)"},
+    # NOT reflection covariant (d(phi0+phi1) vs d(phi0-phi1)); feeds only the diagnostic
+    # linearizationCriterion1/2 of the out-of-equilibrium solution, none of the outputs of
+    # C08; reported as an observation
+    ("boltzmann.py", "checkLinearization"): {
+        "np.sum(self.background.fieldProfiles, axis=1)"},
+}
 
 
 def _direct_names(node):
-    """names used in `node` other than inside the arguments of a call to a collaborator
-    (particle.*, effectivePotential.*: their field dependence is external)"""
+    """names and attribute names used in `node` other than inside the arguments of a call
+    to a collaborator (particle.*, effectivePotential.*: their field dependence is
+    external)"""
     out = set()
     if isinstance(node, ast.Name):
         out.add(node.id)
+    elif isinstance(node, ast.Attribute):
+        out.add(node.attr)
+        out |= _direct_names(node.value)
     elif isinstance(node, ast.Call):
         f = node.func
         own = isinstance(f, ast.Name) or (
             isinstance(f, ast.Attribute) and isinstance(f.value, ast.Name) and
-            f.value.id in NP) or (isinstance(f, ast.Attribute) and f.attr in ("view",))
+            f.value.id in NP) or (isinstance(f, ast.Attribute) and
+                                  f.attr in ("view", "copy", "ravel", "flatten", "astype"))
         if own:
             for a in list(node.args) + [k.value for k in node.keywords]:
                 out |= _direct_names(a)
@@ -90,31 +135,45 @@ def _direct_names(node):
     return out
 
 
-def unmodelled_reductions(cls):
-    """reduction call sites anywhere in the class that act directly on field-axis data and
-    were not translated: the model would silently not cover them"""
-    bad = []
-    for fn in cls.body:
-        if not isinstance(fn, ast.FunctionDef):
-            continue
-        for n in ast.walk(fn):
-            if not isinstance(n, ast.Call):
-                continue
+def _sites(fn):
+    """(node, kind) for every comparison, entry-selecting call, literal column index or
+    reversed slice in fn"""
+    for n in ast.walk(fn):
+        if isinstance(n, ast.Compare):
+            yield n, n
+        elif isinstance(n, ast.Call):
             f = n.func
-            name = f.attr if isinstance(f, ast.Attribute) else (
+            nm = f.attr if isinstance(f, ast.Attribute) else (
                 f.id if isinstance(f, ast.Name) else None)
-            if name not in ALL_RED:
+            if nm in SITE_CALLS:
+                yield n, n
+        elif isinstance(n, ast.Subscript) and isinstance(n.ctx, ast.Load):
+            items = n.slice.elts if isinstance(n.slice, ast.Tuple) else [n.slice]
+            if any(isinstance(i, ast.Constant) and isinstance(i.value, int) and
+                   not isinstance(i.value, bool) for i in items) or \
+                    any(isinstance(i, ast.Slice) and i.step is not None for i in items):
+                yield n, n.value
+
+
+def unmodelled_sites(sources, translated_file="equationOfMotion.py"):
+    """sites anywhere in the scanned modules that select or mix entries of field-axis data
+    and are neither part of the generated model nor in the reviewed allow-list"""
+    bad = []
+    for fname, src in sources.items():
+        tree = ast.parse(src)
+        for fn in ast.walk(tree):
+            if not isinstance(fn, ast.FunctionDef):
                 continue
-            args = list(n.args)
-            if isinstance(f, ast.Attribute) and not (isinstance(f.value, ast.Name) and
-                                                     f.value.id in NP) and \
-                    ast.unparse(f.value) not in ("np.linalg", "numpy.linalg"):
-                args.append(f.value)          # x.sum() / x.dot(y)
-            names = set()
-            for a in args:
-                names |= _direct_names(a)
-            if names & FIELD_DATA and (n.lineno, n.col_offset) not in VISITED:
-                bad.append("%s line %d: %s" % (fn.name, n.lineno, ast.unparse(n)[:50]))
+            allowed = ALLOWED_SITES.get((fname, fn.name), set())
+            for n, probe in _sites(fn):
+                if not (_direct_names(probe) & FIELD_DATA):
+                    continue
+                if fname == translated_file and (n.lineno, n.col_offset) in VISITED:
+                    continue
+                if ast.unparse(n) in allowed:
+                    continue
+                bad.append("%s:%s line %d: %s" % (fname, fn.name, n.lineno,
+                                                  ast.unparse(n)[:60]))
     return bad
 
 
@@ -127,7 +186,7 @@ class Val:
 class Vec:
     """Demand-driven symbolic evaluation of array expressions inside one function."""
 
-    def __init__(self, fn, inputs, attrs=None, lam=None, zscalar=None):
+    def __init__(self, fn, inputs, attrs=None, lam=None, zscalar=None, allow_stores=()):
         self.fn = fn
         self.inputs = inputs          # unparse(expr) -> (coq term, dims)
         self.attrs = attrs or {}      # unparse(expr) -> coq scalar term
@@ -136,6 +195,30 @@ class Vec:
         self.stmts = self.flatten(fn.body)
         self.params = [a.arg for a in fn.args.args]
         self.depth = 0
+        # in-place modifications: a name whose entries or attributes are stored to anywhere
+        # in the function (x[...] = / x[...] op= / x.a = / x op= ...) has no single value
+        self.dirty = {}
+        for n in ast.walk(fn):
+            tgs = n.targets if isinstance(n, ast.Assign) else (
+                [n.target] if isinstance(n, (ast.AugAssign, ast.AnnAssign)) else [])
+            for t in tgs:
+                for e in (t.elts if isinstance(t, (ast.Tuple, ast.List)) else [t]):
+                    root, through = e, False
+                    while isinstance(root, (ast.Subscript, ast.Attribute)):
+                        root, through = root.value, True
+                    if isinstance(root, ast.Name) and root.id != "self" and (
+                            through or isinstance(n, ast.AugAssign)):
+                        if ast.unparse(e) in allow_stores:
+                            continue
+                        self.dirty[root.id] = n.lineno
+
+    def clean(self, node):
+        """fail closed when the value of `node` depends on a name modified in place"""
+        for m in ast.walk(node):
+            if isinstance(m, ast.Name) and m.id in self.dirty:
+                raise TranslateError("%s: %s is modified in place at line %d (subscript / "
+                                     "attribute / augmented store): no single value to "
+                                     "translate" % (self.fn.name, m.id, self.dirty[m.id]))
 
     def flatten(self, body):
         out = []
@@ -195,6 +278,7 @@ class Vec:
     def _expr(self, node, at):
         key = ast.unparse(node)
         if key in self.inputs:
+            self.clean(node)
             return Val(*self.inputs[key])
         if key in self.attrs:
             return Val(self.attrs[key], ())
@@ -202,6 +286,7 @@ class Vec:
         if c is not None:
             return Val(rlit(c), ())
         if isinstance(node, ast.Name):
+            self.clean(node)
             a = self.assignment(node.id, at)
             if a is None:
                 raise TranslateError("%s: name %s is neither a declared input nor "
@@ -280,6 +365,7 @@ class Vec:
             return self.reduce(RED[nm], node, at)
         nm = _np_call(node, ("maximum", "minimum", "fmax", "fmin"))
         if nm and len(node.args) == 2 and not node.keywords:
+            VISITED.add((node.lineno, node.col_offset))
             a, b = self.expr(node.args[0], at), self.expr(node.args[1], at)
             return Val("(R%s %s %s)" % ("max" if "max" in nm else "min", a.term, b.term),
                        broadcast(a.dims, b.dims, ast.unparse(node)[:60]))
@@ -495,8 +581,10 @@ class Lst:
     def lst(self, node, at):
         k = ast.unparse(node)
         if k in self.inputs:
+            self.vec.clean(node)
             return self.inputs[k]
         if isinstance(node, ast.Name):
+            self.vec.clean(node)
             a = self.vec.assignment(node.id, at)
             if a is None or a[0] == "tuple":
                 raise TranslateError("list name %s unresolved" % node.id)
@@ -544,7 +632,7 @@ def gen_packing(fns, spans):
     spans["_toWallParams"] = (fn.lineno, fn.end_lineno, _sha(ast.unparse(fn)))
     # the minimiser call
     fn = fns["_intermediatePressureResults"]
-    v = Vec(fn, {})
+    v = Vec(fn, {}, allow_stores=("wallParams.widths", "wallParams.offsets"))
     calls = [n for n in ast.walk(fn) if isinstance(n, ast.Call) and
              ast.unparse(n.func).endswith("optimize.minimize")]
     if len(calls) != 1:
@@ -592,7 +680,89 @@ def gen_packing(fns, spans):
                L.lst(lb, call.lineno))
     out.append("Definition minimize_ub (b : bcfg) (n : nat) : list R :=\n  %s." %
                L.lst(ub, call.lineno))
+    # the statements about bounds rely on scipy's bounded Nelder-Mead (start vector and
+    # every trial point clipped into the box, no coordinate-wise line searches)
+    m = kw.get("method")
+    if not (isinstance(m, ast.Constant) and m.value == "Nelder-Mead"):
+        raise TranslateError("scipy.optimize.minimize is not called with method="
+                             "\"Nelder-Mead\" (got %s)" % (ast.unparse(m) if m else None))
+    for k in kw:
+        if k not in ("args", "method", "bounds", "tol", "options"):
+            raise TranslateError("unexpected keyword %s of scipy.optimize.minimize" % k)
+    # what is done with the minimiser's answer: only sol.x, unpacked by _toWallParams
+    asg = [st for st in fn.body if isinstance(st, ast.Assign) and st.value is call and
+           len(st.targets) == 1 and isinstance(st.targets[0], ast.Name)]
+    if len(asg) != 1:
+        raise TranslateError("result of scipy.optimize.minimize is not assigned to a name")
+    sol = asg[0].targets[0].id
+    good = set()
+    for n in ast.walk(fn):
+        if isinstance(n, ast.Call) and ast.unparse(n) == "self._toWallParams(%s.x)" % sol:
+            good.add(id(n.args[0].value))
+    for n in ast.walk(fn):
+        if isinstance(n, ast.Name) and n.id == sol and isinstance(n.ctx, ast.Load) and \
+                id(n) not in good:
+            raise TranslateError("the minimiser's answer %s is used other than as "
+                                 "self._toWallParams(%s.x) (line %d)" % (sol, sol, n.lineno))
+    upd = [st for st in fn.body if isinstance(st, ast.Assign) and st.lineno > call.lineno and
+           len(st.targets) == 1 and ast.unparse(st.targets[0]) == "wallParams"]
+    if len(upd) != 1:
+        raise TranslateError("update of wallParams after the minimisation not found")
+    vu = Vec(fn, {"self._toWallParams(%s.x)" % sol: ("found", ("F",)),
+                  "wallParams": ("old", ("F",)), "multiplier": ("multiplier", ())},
+             allow_stores=("wallParams.widths", "wallParams.offsets"))
+    val = vu.expr(upd[0].value, upd[0].lineno)
+    if val.dims != ("F",):
+        raise TranslateError("update of wallParams is not elementwise")
+    out.append("(* new wall parameters from the minimiser's answer (WallParams arithmetic is "
+               "componentwise, see below) *)")
+    out.append("Definition relax_params (multiplier found old : R) : R :=\n  %s." % val.term)
     return out, v, fn
+
+
+def gen_WallParams(cls, spans):
+    """arithmetic of containers.WallParams: every operation acts on widths and offsets
+    separately and elementwise"""
+    fns = methods(cls)
+    out = []
+    for name, short, params in (("__add__", "add", "aw ao bw bo"), ("__sub__", "sub",
+                                                                     "aw ao bw bo"),
+                                ("__mul__", "mul", "aw ao k"), ("__truediv__", "div",
+                                                                "aw ao k")):
+        fn = fns.get(name)
+        if fn is None:
+            raise TranslateError("WallParams.%s not found" % name)
+        ret = [s for s in ast.walk(fn) if isinstance(s, ast.Return)]
+        if len(ret) != 1 or not (isinstance(ret[0].value, ast.Call) and
+                                 ast.unparse(ret[0].value.func) == "WallParams"):
+            raise TranslateError("WallParams.%s: `return WallParams(...)` expected" % name)
+        kw = {k.arg: k.value for k in ret[0].value.keywords}
+        if ret[0].value.args or set(kw) != {"widths", "offsets"}:
+            raise TranslateError("WallParams.%s: WallParams(widths=, offsets=) expected" % name)
+        arg = [a.arg for a in fn.args.args if a.arg != "self"]
+        if len(arg) != 1:
+            raise TranslateError("WallParams.%s: one operand expected" % name)
+        inputs = {"self.widths": ("aw", ("F",)), "self.offsets": ("ao", ("F",))}
+        if "bw" in params:
+            inputs.update({arg[0] + ".widths": ("bw", ("F",)),
+                           arg[0] + ".offsets": ("bo", ("F",))})
+        else:
+            inputs[arg[0]] = ("k", ())
+        v = Vec(fn, inputs)
+        for k in ("widths", "offsets"):
+            val = v.expr(kw[k], ret[0].lineno)
+            if val.dims != ("F",):
+                raise TranslateError("WallParams.%s is not elementwise" % name)
+            out.append("Definition WallParams_%s_%s (%s : R) : R :=\n  %s." % (
+                short, k, params, val.term))
+        spans["WallParams." + name] = (fn.lineno, fn.end_lineno, _sha(ast.unparse(fn)))
+    fn = fns.get("__rmul__")
+    body = [s for s in fn.body if not (isinstance(s, ast.Expr) and
+                                       isinstance(s.value, ast.Constant))] if fn else []
+    if len(body) != 1 or not isinstance(body[0], ast.Return) or \
+            ast.unparse(body[0].value) != "self.__mul__(%s)" % fn.args.args[1].arg:
+        raise TranslateError("WallParams.__rmul__ is not self.__mul__(number)")
+    return out
 
 
 def gen_clip(fn):
@@ -613,7 +783,8 @@ def gen_clip(fn):
     attrs = {k: v for k, v in BCFG.items()}
     for k, arg in (("widths", "w"), ("offsets", "d")):
         st = stores[k]
-        v = Vec(fn, {"wallParams." + k: (arg, ("F",))}, attrs=attrs)
+        v = Vec(fn, {"wallParams." + k: (arg, ("F",))}, attrs=attrs,
+                allow_stores=("wallParams.widths", "wallParams.offsets"))
         val = v.expr(st.value, st.lineno)
         if val.dims != ("F",):
             raise TranslateError("clipping of %s is not elementwise over the fields" % k)
@@ -627,7 +798,7 @@ def gen_dVdz(v, fn, spans, axis_consts):
     at = fn.end_lineno + 1
     trip = {"dVdPhi": ("(fst (fst t))", ("P", "F")), "dVout": ("(snd (fst t))", ("P", "F")),
             "dPhidz": ("(snd t)", ("P", "F"))}
-    vv = Vec(fn, trip, lam=("t", "ts"))
+    vv = Vec(fn, trip, lam=("t", "ts"), allow_stores=("wallParams.widths", "wallParams.offsets"))
     a = vv.assignment("dVdz", at)
     if a is None or a[0] == "tuple":
         raise TranslateError("dVdz not found")
@@ -808,7 +979,7 @@ Local Open Scope R_scope.
 """
 
 
-def generate(eom_src, fields_src):
+def generate(eom_src, fields_src, others=None):
     spans = {}
     VISITED.clear()
     eom_cls = find_class(ast.parse(eom_src), "EOM")
@@ -829,19 +1000,27 @@ def generate(eom_src, fields_src):
         + gen_temperatureLHS(eom["temperatureProfileEqLHS"], spans)
     pk, v, fn = gen_packing(eom, spans)
     out += ["(** EOM._toWallParams and what scipy.optimize.minimize receives *)"] + pk
+    if others and "containers.py" in others:
+        out += ["(** containers.WallParams arithmetic *)"] + gen_WallParams(
+            find_class(ast.parse(others["containers.py"]), "WallParams"), spans)
+    else:
+        raise TranslateError("containers.py not given")
     out += ["(** EOM._intermediatePressureResults: clipping of the incoming wall parameters "
             "(elementwise, every field including the pinned one) *)"] + gen_clip(fn)
     out += ["(** EOM._intermediatePressureResults: dV/dz and the Boltzmann background *)"] + \
         gen_dVdz(v, fn, spans, consts)
-    bad = unmodelled_reductions(eom_cls)
+    sources = {"equationOfMotion.py": eom_src}
+    sources.update(others or {})
+    bad = unmodelled_sites(sources)
     if bad:
-        raise TranslateError("reduction over field-axis data outside the model: " +
-                             "; ".join(bad))
+        raise TranslateError("field-axis data is compared / reduced / indexed by position "
+                             "outside the model: " + "; ".join(bad))
     return "\n".join(out) + "\n", spans
 
 
 if __name__ == "__main__":
     import sys
     import vlib
-    text, spans = generate(vlib.read_src("equationOfMotion.py"), vlib.read_src("fields.py"))
+    text, spans = generate(vlib.read_src("equationOfMotion.py"), vlib.read_src("fields.py"),
+                           {f: vlib.read_src(f) for f in SCAN_FILES})
     sys.stdout.write(text)
